@@ -436,6 +436,45 @@ pub fn run(ctx: &Ctx) -> Rep {
     let (r4, x4) = merge_states(s4);
     rep.merge(r4);
 
+    // ---- (4a) shortest texts: every pattern of token byte lengths, no padding ------------------------------
+    // Texts of 1..=8 tokens joined by single one-byte separators, every token 1, 2 or 3 bytes long in every
+    // combination (so every total byte length from 2n-1 upwards occurs for n tokens), with blank, card and
+    // glyph tokens of each length: where a parser that sizes, pre-checks or slices the text by byte length
+    // rather than by tokens goes wrong on the shortest legal inputs.
+    {
+        let mut st = St { rep: Rep::new(), x: mk(), cur: [0; 8], cur_len: 0, cur_what: "" };
+        let by_len: [&[&str]; 3] = [&["A", "x", "9"], &["Ah", "xx", "2c", "é"], &["Ahx", "♠", "10s", "K♦"]];
+        let mut n_texts = 0u64;
+        let mut lens_seen = std::collections::BTreeSet::new();
+        for ntok in 1..=8usize {
+            let patterns = 3usize.pow(ntok as u32);
+            for pat in 0..patterns {
+                for (variant, sep) in [(0usize, ' '), (1, ' '), (2, '\t'), (3, ' ')] {
+                    if ctx.smoke() && (pat + variant) % 97 != 0 {
+                        continue;
+                    }
+                    let mut s = String::new();
+                    let mut p = pat;
+                    for k in 0..ntok {
+                        if k > 0 {
+                            s.push(sep);
+                        }
+                        let choices = by_len[p % 3];
+                        p /= 3;
+                        s.push_str(choices[(variant + k * (variant / 3)) % choices.len()]);
+                    }
+                    lens_seen.insert((ntok, s.len()));
+                    check_text(&mut st, &s);
+                    n_texts += 1;
+                }
+            }
+        }
+        st.rep.add("shortest_texts_by_token_length_pattern", n_texts);
+        st.rep.add("distinct_token_count_and_byte_length_pairs", lens_seen.len() as u64);
+        st.rep.distinct += n_texts;
+        rep.merge(st.rep);
+    }
+
     // ---- (4b) long texts: more tokens than there are cards ------------------------------------------------
     {
         let mut st = St { rep: Rep::new(), x: mk(), cur: [0; 8], cur_len: 0, cur_what: "" };
